@@ -138,6 +138,10 @@ def _weave_states_in_region(
                     if_state = _weave_states_in_region(op.true_region, state.copy(), rewriter)
                     else_state = _weave_states_in_region(op.false_region, state.copy(), rewriter)
 
+                    # a state that is lost in one of the branches (e.g. reset by a call) is unknown after the if
+                    for accel in [k for k in state if k not in if_state or k not in else_state]:
+                        del state[accel]
+
                     # calculate the delta:
                     delta = calc_if_state_delta(state, if_state, else_state)
                     # no delta = nothing to do
